@@ -30,6 +30,8 @@ CONSTANTS
               \* e.g. " skipper", " Skip", " xunwrap-block", " names='a'"
   TagPad,     \* characters between the tag body and the end delimiter (and behind the start delimiter of closing tags stays
               \* none): <<>> or e.g. <<SP>> ("<tag a='b' >"), the README's padded style
+  Lead,       \* characters in front of the whole document: <<>>, a byte order mark <<65279>>, or a first line with another
+              \* line terminator (e.g. "m" CR LF in front of an LF document: mixed line ends)
   EdgeCh,     \* characters glued to a tag wherever text shares the line with it (behind "c<n>; " in front of an opening tag,
               \* directly behind a closing tag that is followed by text): <<>> or e.g. a multi-byte character
   WideCode,   \* TRUE: code lines consist of the wide blanks U+3000 / U+00A0 only (no blank in the sense of the tool)
@@ -195,7 +197,7 @@ JoinLines(ls, i) == IF i > Len(ls) THEN <<>>
 RECURSIVE Fillers(_)
 Fillers(i) == IF i > Preamble THEN <<>> ELSE <<112>> \o Digits(i) \o <<59>> \o EOL \o Fillers(i + 1)            \* p<i>;
 
-GenDoc == Fillers(1) \o JoinLines(lines, 1)
+GenDoc == Lead \o Fillers(1) \o JoinLines(lines, 1)
 Shape == [i \in 1..Len(lines) |-> <<lines[i].k, lines[i].ind>> \o lines[i].kind]
 
 Complete == stack = <<>> /\ lines # <<>> /\ (nel >= 1 \/ \E i \in 1..Len(lines) : lines[i].k = "pair")
